@@ -9,7 +9,7 @@
    object that is not live (outcome Dangling of [step]).  [listed u p] = p is in u's input or output
    port list. *)
 From OlaBase Require Import Bytes.
-From C03 Require Import Gen Model Lemmas Proofs Proofs2 Model2 Proofs3 Proofs4 Model3 Proofs5 Proofs6 Model4 Proofs7 Model5 Proofs8 Proofs9.
+From C03 Require Import Gen Model Lemmas Proofs Proofs2 Model2 Proofs3 Proofs4 Model3 Proofs5 Proofs6 Model4 Proofs7 Model5 Proofs8 Proofs9 Proofs10.
 Local Open Scope N_scope.
 
 (* the constants regenerated from include/ola/dmx/SourcePriorities.h are the property's numbers *)
@@ -619,6 +619,33 @@ Example ex_saved_settings :
       end
     | None => False
     end
+  | None => False
+  end.
+Proof. vm_compute. repeat split; reflexivity. Qed.
+
+(* History-level form (first half of the sentence): [wtrace] is [wrun] carrying along, for every universe
+   number n, the (name, merge mode) the universe object numbered n had at the step where it last left the
+   store ([left_update]; None if it never did).  After ANY Model5 history the saved settings of every n
+   -- in the store or not -- are exactly that: both preferences absent if it never left the store,
+   otherwise the name and mode of the object that last left. *)
+Theorem c03w_settings_history : forall (zc : zcfg) (ops : list wop),
+  exists w g, wtrace zc (winit zc) ops (fun _ => None) = Some (w, g) /\
+    wrun zc (winit zc) ops = Some w /\
+    forall n, match g n with
+              | Some (v, b) => w_pname w n = Some v /\ w_pmode w n = Some b
+              | None => w_pname w n = None /\ w_pmode w n = None
+              end.
+Proof. exact c03w_settings_history_l. Qed.
+Print Assumptions c03w_settings_history.
+
+(* the ghost of the two-lives example: after the DeleteAll, number 5 last left the store named "" / LTP *)
+Example ex_settings_history :
+  let zc := mkzcfg ex_xcfg (fun _ => false) in
+  let zy o := WZ (ZY (YX o)) in
+  match wtrace zc (winit zc) [zy (XSvcRegister 5 1); WSetMode 5 true; zy (XSvcUnregister 5 1); zy (XBase GC);
+                              zy (XSvcRegister 5 1); WSetName 5 0; WSetMode 5 false; zy (XSvcUnregister 5 1);
+                              WDeleteAll; zy (XSvcRegister 5 2)] (fun _ => None) with
+  | Some (w, g) => g 5 = Some (0, false) /\ g 6 = None /\ w_pname w 5 = Some 0 /\ w_pmode w 5 = Some false
   | None => False
   end.
 Proof. vm_compute. repeat split; reflexivity. Qed.
